@@ -32,5 +32,3 @@ func replayEngine(t *testing.T, r *Replay) (bool, uint64, string, []string) {
 	}
 	return false, res.TraceHash, "", res.Trace
 }
-
-func RunUpgrade(t *testing.T, spec RunSpec) *Result { panic("upgsim not built yet") }
